@@ -17,7 +17,7 @@ ID = 'C09'
 HARNESS_BIN = 'c09'
 RUN_MODULE = 'Run.C09'
 THEOREMS = ['C09_faults_transparent', 'C09_internal_fault_reported', 'C09_history_transparent', 'C09_failed_never_stored',
-            'C09_compile_failure_never_stored', 'C09_repopulates']
+            'C09_compile_failure_never_stored', 'C09_repopulates', 'C09_untrusted_result_key_is_a_miss']
 ASSUMPTIONS = [
     'the compiler is a deterministic function of the translation unit during one history (the oracle of Model/ReqSM.v); '
     'hash keys are sound: equal result keys mean equal compile results, equal preprocessor keys and include-file state '
@@ -320,6 +320,25 @@ def gen_pokes(tier):
     return out
 
 
+FORGED_KEYS = [b'empty', b'len1', b'len2', b'nonhex', b'upper', b'slash', b'dotdot', b'abs', b'utf8', b'short', b'valid']
+
+
+def gen_forge(tier):
+    """The unit's preprocessor-cache entry is replaced by a WELL-FORMED entry whose (always matching) result names a
+    key no compilation produced: empty, 1 or 2 characters, not hexadecimal, with '/' or '..', absolute, non-ASCII, too
+    short, or a proper digest that is not in the cache.  The key comes out of an untrusted file: it must at worst be
+    a miss that recompiles, and nothing may be read or written outside the cache directory.  Monitor only."""
+    out = []
+    for kind in FORGED_KEYS:
+        for t in (0, 3):
+            out.append([1, [ORC_OK] * 4, [req(t), [b'ppforge', t, kind], req(t), req(t), req(t)]])
+            out.append([1, [ORC_OK] * 4, [req(t), [b'ppforge', t, kind], [b'restart', b'rw'], req(t), req(t)]])
+            out.append([1, [ORC_OK] * 4, [req(t, f=F(put=b'err')), [b'ppforge', t, kind], req(t), req(t), req(t)]])
+            out.append([1, [ORC_OK] * 4, [req(t), [b'ppforge', t, kind], [b'restart', b'ro'], req(t), req(t)]])
+        out.append([1, [ORC_CCFAIL, ORC_OK, ORC_OK, ORC_OK], [req(0), [b'ppforge', 0, kind], req(0), req(0)]])
+    return out
+
+
 def gen_first_touch(tier):
     """The cache directory is unusable exactly when a (re)started server first touches its stores, is repaired later;
     then a miss must store and the repeat must hit — for a cache that was empty, populated, read-only."""
@@ -473,6 +492,11 @@ def monitor(case, out):
         if b'stats_hung' in ob[-1:] or ob[-1] == [b'stats_hung']:
             vs.append('step %d: the server no longer answers a statistics request (hung)' % i)
             break
+        for part in ob:
+            if isinstance(part, list) and len(part) == 6 and all(isinstance(x, int) for x in part) and part[5] > 0:
+                vs.append('step %d: %d file(s) were created OUTSIDE the cache directory (a key read from a cache file was '
+                          'used as a path)' % (i, part[5]))
+                break
         if kind == b'midzero':
             kind, st = b'req', st[1]
         if kind == b'req' and distfail and st[2] in EXEC:
@@ -528,6 +552,9 @@ def monitor(case, out):
             settled[st[1]] = False
             poked[st[1]] = True
             prev_good = ob[1][0]
+        elif kind == b'ppforge':
+            settled[st[1]] = False
+            prev_good = ob[1][0]
         elif kind == b'restart':
             ro = st[1] == b'ro'
             distfail = False
@@ -555,7 +582,7 @@ def nontrivial(case, out):
             st = st[1]
         if st[0] == b'req' and (st[5] != NOF or st[4] == 0):
             return True
-        if st[0] in (b'disk', b'restart', b'restart_broken', b'restart_distfail', b'poke'):
+        if st[0] in (b'disk', b'restart', b'restart_broken', b'restart_distfail', b'poke', b'ppforge'):
             return True
     return False
 
@@ -619,15 +646,15 @@ def compare(m, i):
     # histories with a `poke` step are judged by the monitor only (see gen_pokes)
     # ... and a history with a request that was never answered is the monitor's business (no shrinking on a tree
     # where every candidate costs a time-out)
-    return m == i or '(poke ' in i or 'not_run_after_hangs' in i or 'hung' in i
+    return m == i or '(poke ' in i or '(ppforge ' in i or 'not_run_after_hangs' in i or 'hung' in i
 
 
 def legs(tier):
     def gen(rng, tier):
         if tier == 'thorough':
-            return (gen_table(tier) + gen_flips(tier) + gen_pokes(tier) + gen_first_touch(tier)
+            return (gen_table(tier) + gen_flips(tier) + gen_pokes(tier) + gen_forge(tier) + gen_first_touch(tier)
                     + gen_histories(rng, 20000, 16) + gen_midzero(rng, 2000))
-        return (gen_table(tier) + gen_flips(tier) + gen_pokes(tier) + gen_first_touch(tier)
+        return (gen_table(tier) + gen_flips(tier) + gen_pokes(tier) + gen_forge(tier) + gen_first_touch(tier)
                 + gen_histories(rng, 2500, 14) + gen_midzero(rng, 150))
     return [Leg('reqsm', gen, monitor=monitor, compare=compare, nontrivial=nontrivial, shrink=shrink, neighbours=neighbours, stats=stats,
                 rule='single-request table: every reachable cache state (empty, warm, entry garbage/truncated/deleted/damaged in '
